@@ -10,7 +10,7 @@ BD=/var/tmp/tbfsim_seed_build
 if [ ! -d "$WT" ]; then git -C /repo worktree add -q --detach "$WT" HEAD || exit 2; fi
 git -C "$WT" checkout -q --detach "$(git -C /repo rev-parse HEAD)" && git -C "$WT" checkout -q -- .
 if [ ! -f "$BD/build.ninja" ]; then
-  cmake -S "$WT" -B "$BD" -G Ninja -DCMAKE_BUILD_TYPE=RelWithDebInfo -DCMAKE_CXX_FLAGS=-Wno-error > "$BD.configure.log" 2>&1 || { echo "configure failed"; exit 2; }
+  cmake -S "$WT" -B "$BD" -G Ninja -DCMAKE_BUILD_TYPE=RelWithDebInfo -DCMAKE_CXX_FLAGS=-Wno-error -DBUILD_TESTS=ON > "$BD.configure.log" 2>&1 || { echo "configure failed"; exit 2; }
 fi
 ninja -C "$BD" -j ${JOBS:-10} > "$BD.base.log" 2>&1 || { echo "baseline build failed"; tail -5 "$BD.base.log"; exit 2; }
 while [ $# -ge 2 ]; do
